@@ -23,7 +23,8 @@ RULE = ("random mapped models (C06's generator, every root class carries a uid) 
         "references drawn from a small pool (sharing), back references, cycles and self loops, None for optional "
         "fields, empty collections, subclass instances in base-typed fields, the same object twice in a list, Type[...] "
         "values, extreme scalars (nan, inf, -0.0, 2**31-1, unicode); each graph is converted once alone and once as two "
-        "roots sharing one ToDAOState / FromDAOState; plus the hand-written model with alternative mappings (one of them "
+        "roots sharing one ToDAOState / FromDAOState; every third graph also starts a stream of five graphs that are dropped right "
+        "after their conversion with one shared ToDAOState (each DAO must still restore its own graph); plus the hand-written model with alternative mappings (one of them "
         "inherited by a child and a grandchild, storing fields under other names, under the same name in another encoding and a "
         "collection in another order), a frozen dataclass with references, sets of builtins and a "
         "custom column type.  Non-trivial = the graph has an aliased node; distinct = (objects, shared nodes, classes) "
@@ -41,7 +42,7 @@ def plan(tier):
     return {"cases": 36 if tier == "quick" else 160, "shards": 16, "case_timeout": 900, "shard_timeout": 6000,
             "dev_shard": False, "min_nontrivial": 20,
             "min_counters": {"graphs": 3000, "objects": 8000, "shared_nodes": 2000, "c04_objects_compared": 8000,
-                             "c04_shared_state_pairs": 1500, "handwritten_model_graphs": 100}}
+                             "c04_shared_state_pairs": 1500, "c04_stream_graphs": 2000, "handwritten_model_graphs": 100}}
 
 
 def setup(ctx):
